@@ -15,6 +15,12 @@ REPO = os.environ.get("VERIF_REPO", "/repo")
 COQ = os.path.join(VERIF, "coq")
 HGO = os.path.join(VERIF, "harness", "go")
 HML = os.path.join(VERIF, "harness", "ml")
+# development aid while several properties are being built at once: VERIF_PARTS="parse,num" restricts the
+# extraction (coq/Extract/parts/<p>.ext + harness/ml/cmd_<p>.ml) and the model build to those parts, so that a
+# half-written file of another property cannot break this one.  Unset = everything (the registered checks).
+PARTS = [x for x in os.environ.get("VERIF_PARTS", "").split(",") if x]
+SUFFIX = ("-" + "-".join(PARTS)) if PARTS else ""
+DRIVER = os.path.join(HML, "driver" + SUFFIX)
 EVID = os.path.join(VERIF, "evidence")
 WORK = os.path.join(VERIF, ".work")
 NCPU = os.cpu_count() or 4
@@ -141,14 +147,14 @@ def newest(paths):
 
 def build_ml(force=False):
     """extract the models (Separate Extraction) and build the OCaml driver when stale."""
-    drv = os.path.join(HML, "driver")
+    drv = DRIVER
     ext = write_extract_v()
     srcs = glob.glob(os.path.join(COQ, "Model", "*.vo")) + glob.glob(os.path.join(COQ, "Spec", "*.vo")) + \
         glob.glob(os.path.join(COQ, "Gen", "*.vo")) + glob.glob(os.path.join(COQ, "Base", "*.vo")) + \
         [ext, os.path.join(HML, "build.sh")] + glob.glob(os.path.join(HML, "*.ml"))
     if not force and os.path.exists(drv) and os.path.getmtime(drv) >= newest(srcs):
         return True, "up to date"
-    gen = os.path.join(HML, "gen")
+    gen = os.path.join(HML, "gen" + SUFFIX)
     os.makedirs(gen, exist_ok=True)
     for f in glob.glob(os.path.join(gen, "*")):
         os.remove(f)
@@ -156,14 +162,21 @@ def build_ml(force=False):
                  cwd=gen, timeout=600)
     if rc != 0:
         return False, out
-    rc, out = sh(["sh", os.path.join(HML, "build.sh")], timeout=900)
+    rc, out = sh(["sh", os.path.join(HML, "build.sh"), SUFFIX] + PARTS, timeout=900)
     return rc == 0, out
+
+
+def ext_parts():
+    fs = sorted(glob.glob(os.path.join(COQ, "Extract", "parts", "*.ext")))
+    if PARTS:
+        fs = [f for f in fs if os.path.basename(f)[:-4] in PARTS or os.path.basename(f).startswith("00_")]
+    return fs
 
 
 def write_extract_v():
     """assemble Extract.v from coq/Extract/parts/*.ext ('require:' and 'roots:' lines)"""
     req, roots = [], []
-    for f in sorted(glob.glob(os.path.join(COQ, "Extract", "parts", "*.ext"))):
+    for f in ext_parts():
         for line in open(f):
             line = line.strip()
             if line.startswith("require:"):
@@ -175,13 +188,20 @@ def write_extract_v():
             "From Coq Require Import List NArith ZArith Bool.\nFrom Coq Require Extraction ExtrOcamlBasic.\n"
             "From GY Require Import %s.\nExtraction Language OCaml.\nSeparate Extraction\n  %s.\n"
             % (" ".join(req), "\n  ".join(roots)))
-    p = os.path.join(WORK, "Extract.v")
+    p = os.path.join(WORK, "Extract%s.v" % SUFFIX.replace("-", "_"))
     write_if_changed(p, body)
     return p
 
 
 def model_vos():
     """targets the extraction needs"""
+    if PARTS:
+        t = []
+        for f in ext_parts():
+            for line in open(f):
+                if line.startswith("require:"):
+                    t += [x.replace(".", "/") + ".vo" for x in line[8:].split()]
+        return sorted(set(t))
     t = []
     for d in ("Base", "Gen", "Model", "Spec"):
         t += [os.path.relpath(f, COQ) + "o" for f in sorted(glob.glob(os.path.join(COQ, d, "*.v")))]
@@ -315,7 +335,7 @@ def run_go(lines, **kw):
 
 
 def run_ml(lines, **kw):
-    return run_sharded([os.path.join(HML, "driver")], lines, **kw)
+    return run_sharded([DRIVER], lines, **kw)
 
 
 # --------------------------------------------------------------------------- findings
